@@ -1,19 +1,26 @@
 import HeartwoodModel.Model.Patch
+import HeartwoodModel.Model.ChangeGraph
 import HeartwoodModel.Driver.Util
 /-!
 Driver entry for C08 (also the patch half of C07, which imports this file).
 
-Case: `patch <docs> <heads> <order> <op0> <op1> …`
+Case: `patch <docs> <heads> g=<ranks>/<sigbits> <op0> <op1> …`
 * `docs`  = `;`-separated `delegates/threshold` (delegates `,`-separated actor numbers);
 * `heads` = per actor the commit index of its default branch or `x` (used by the harness only);
-* `order` = `,`-separated indices of the ops (≠ 0) in the order the REAL evaluation applied them, `-` if none;
+* `g=`    = the abstract change graph facts: for each op the rank of its commit oid among the oids of the
+  case (`,`-separated; the evaluator's keys, ordered like the `Oid`s) and one `0/1` per op for
+  `Entry::valid_signatures()`; both computed by the real code;
 * `op`    = `author:doc:ts:tips:act|act|…` (`doc` index or `x` = no resource; `tips` = parent op indices or `-`);
   the id of an op is its position. Action syntax: see `parseAction`.
-Output: `init-err` / `init-panic` / `bad-order`, or
-`r=<o|e|p per applied op>;t=…;au=…;st=…;lb=…;as=…;mg=…;rv=…;ri=…` (see `showPatch`).
+The MODEL computes the evaluation order, the rejected / pruned entries and the final state from this
+DAG with the generic evaluator of `Model/ChangeGraph.lean` (`load` from the DAG tips, then `evaluate` with
+`Patch.op` as `apply`); nothing of the real run is an input.
+Output: `init-err` / `init-panic` / `fuel` / `missing-root` / `sig`, or
+`o=<evaluation order>;r=<o|e|p per evaluated op>;t=…;au=…;st=…;lb=…;as=…;mg=…;rv=…;ri=…` (see `showPatch`).
 -/
 namespace HeartwoodModel.Driver.C08
 open HeartwoodModel.Cob HeartwoodModel.Patch HeartwoodModel.Driver.Util
+open HeartwoodModel.Dag HeartwoodModel.ChangeGraph
 
 def optNat? (s : String) : Option (Option Nat) :=
   if s == "-" then some none else (nat? s).map some
@@ -72,6 +79,7 @@ structure WireOp (A : Type) where
   doc : Option Doc
   tips : List Nat
   actions : List A
+  ts : Nat := 0
 
 def parseWireOp {A : Type} (parseA : String → Option A) (docs : List Doc) (s : String) :
     Option (WireOp A) :=
@@ -82,10 +90,10 @@ def parseWireOp {A : Type} (parseA : String → Option A) (docs : List Doc) (s :
       let i ← nat? d
       let doc ← docs[i]?
       some (some doc))
-    let _ ← nat? ts
+    let ts ← nat? ts
     let tips ← nats? tips
     let acts ← (splitOn acts '|').mapM parseA
-    some { author := au, doc, tips, actions := acts }
+    some { author := au, doc, tips, actions := acts, ts }
   | _ => none
 
 /-- Consistency of the reported evaluation order with the pruning rule of `ChangeGraph::evaluate`:
@@ -114,6 +122,85 @@ def orderOk (tips : List (List Nat)) (order : List Nat) (okFlags : List Bool) : 
         match tips[i]? with
         | some ps => ps.isEmpty || ps.any (fun q => !appliedSet.contains q)
         | none => false
+
+/-! ### the abstract change graph, evaluated by `Model/ChangeGraph.lean` -/
+
+/-- An entry of the change graph: position in the case, timestamp, `valid_signatures()`, payload. -/
+structure GOp (W : Type) where
+  idx : Nat
+  ts : Nat
+  sig : Bool
+  w : W
+
+/-- `g=<ranks>/<sigbits>` -/
+def parseG (s : String) (n : Nat) : Option (List Nat × List Bool) :=
+  match splitOn s '=' with
+  | ["g", r] =>
+    match splitOn r '/' with
+    | [ranks, bits] => do
+      let rs ← nats? ranks
+      let cs := bits.toList
+      if rs.length == n && cs.length == n && cs.all (fun c => c == '0' || c == '1') then
+        some (rs, cs.map (· == '1'))
+      else none
+    | _ => none
+  | _ => none
+
+def mkGOps {W : Type} (ws : List W) (tsOf : W → Nat) (sigs : List Bool) : List (GOp W) :=
+  let rec go (i : Nat) : List W → List (GOp W)
+    | [] => []
+    | w :: rest => { idx := i, ts := tsOf w, sig := (sigs[i]?).getD false, w } :: go (i + 1) rest
+  go 0 ws
+
+/-- `change::Storage::load` on the keys of the case: key = oid rank. -/
+def gStore {W : Type} (ranks : List Nat) (tipsOf : W → List Nat) (gops : List (GOp W)) : Store (GOp W) := fun k =>
+  match gops.find? (fun o => ranks[o.idx]? == some k) with
+  | some o => some ((tipsOf o.w).filterMap (fun t => ranks[t]?), o)
+  | none => none
+
+/-- The refs of the object: one per DAG tip (entries nobody builds on). -/
+def gTips {W : Type} (ranks : List Nat) (tipsOf : W → List Nat) (gops : List (GOp W)) : List Nat :=
+  (gops.filter fun o => gops.all fun o' => !(tipsOf o'.w).contains o.idx).filterMap fun o => ranks[o.idx]?
+
+/-- `(index, concurrent entries present?, accepted?)` per `apply` call, in evaluation order. -/
+abbrev Trace := List (Nat × Bool × Bool)
+
+/-- `cob::get`: load the graph from the tips, evaluate it with `apply` (`none` = `Err`), recording the
+calls of `apply`. -/
+def evalGraph {W S : Type} (ranks : List Nat) (tipsOf : W → List Nat) (gops : List (GOp W))
+    (init : GOp W → Option S) (apply : S → GOp W → Bool → Option S) :
+    Option (Option (EvalOut (S × Trace) (GOp W))) :=
+  let store := gStore ranks tipsOf gops
+  let tips := gTips ranks tipsOf gops
+  let applyM : S × Trace → K → GOp W → List (K × GOp W) → (S × Trace) × Bool := fun st _ e sibs =>
+    let conc := !sibs.isEmpty
+    match apply st.1 e conc with
+    | some s' => ((s', st.2 ++ [(e.idx, conc, true)]), true)
+    | none => ((st.1, st.2 ++ [(e.idx, conc, false)]), false)
+  match ranks[0]? with
+  | none => none
+  | some rootKey =>
+    match load store (loadFuel store ranks tips) tips with
+    | none => none
+    | some none => some none
+    | some (some g) =>
+      some (some (evaluate (·.sig) (·.ts) (fun e => (init e).map fun s => (s, [])) applyM
+        (evalFuel g rootKey) g rootKey))
+
+def showTrace (withConc : Bool) (tr : Trace) : String :=
+  let o := tr.map fun (i, c, _) => if withConc then s!"{i}.{showBool c}" else toString i
+  let r := tr.map fun (_, _, ok) => if ok then "o" else "e"
+  s!"o={if o.isEmpty then "-" else joinWith "," o};r={if r.isEmpty then "-" else joinWith "" r}"
+
+def showEval {W S : Type} (withConc : Bool) (showS : S → String) :
+    Option (Option (EvalOut (S × Trace) (GOp W))) → String
+  | none => "fuel"
+  | some none => "none"
+  | some (some .missingRoot) => "missing-root"
+  | some (some .badRootSig) => "sig"
+  | some (some .initErr) => "init-err"
+  | some (some .fuel) => "fuel"
+  | some (some (.ok st _)) => s!"{showTrace withConc st.2};{showS st.1}"
 
 /-! ### printing -/
 
@@ -195,25 +282,31 @@ def evalOrder (ops : List (WireOp Action)) : Patch → List Nat → List String 
       let r := op p (toOp i w)
       evalOrder ops (step p (toOp i w)) rest (showRes r :: rs) ((match r with | .ok _ => true | _ => false) :: fs)
 
+def optOk {α : Type} : Except Err α → Option α
+  | .ok a => some a
+  | .error _ => none
+
 def runPatch (args : List String) : String :=
   match args with
-  | docs :: heads :: order :: ops =>
-    match parseDocs docs, parseHeads heads, nats? order with
-    | some docs, some _, some order =>
+  | docs :: heads :: gtok :: ops =>
+    match parseDocs docs, parseHeads heads with
+    | some docs, some _ =>
       match ops.mapM (parseWireOp parseAction docs) with
       | some (root :: rest) =>
         let all := root :: rest
-        match fromRoot (toOp 0 root) with
-        | .error .panic => "init-panic"
-        | .error _ => "init-err"
-        | .ok p0 =>
-          match evalOrder all p0 order [] [] with
-          | none => "bad-op"
-          | some (p, rs, fs) =>
-            if orderOk (all.map (·.tips)) order fs then s!"r={dash (joinWith "" rs)};{showPatch p}"
-            else "bad-order"
+        match parseG gtok all.length with
+        | none => "bad-op"
+        | some (ranks, sigs) =>
+          -- a panicking root (`expect` in `from_root`) cannot be told apart from an error by `evaluate`
+          match fromRoot (toOp 0 root) with
+          | .error .panic => "init-panic"
+          | _ =>
+            let gops := mkGOps all (·.ts) sigs
+            showEval false showPatch
+              (evalGraph ranks (·.tips) gops (fun e => optOk (fromRoot (toOp e.idx e.w)))
+                (fun p e _ => optOk (op p (toOp e.idx e.w))))
       | _ => "bad-op"
-    | _, _, _ => "bad-op"
+    | _, _ => "bad-op"
   | _ => "bad-op"
 
 def run (args : List String) : String :=
